@@ -397,6 +397,72 @@ def _(p):
     return None if len(out) == p["df"] else f"wrong-column-count: bs(df={p['df']}) gave {len(out)} columns"
 
 
+# ------------------------------------------------------------------------------------------------ C16
+
+
+def _c16_float_eval(t, env, lits):
+    if t[0] == "v":
+        return env[t[1]]
+    if t[0] == "l":
+        return lits[str(t[1])]
+    if t[0] == "neg":
+        return -_c16_float_eval(t[1], env, lits)
+    a, b = _c16_float_eval(t[1], env, lits), _c16_float_eval(t[2], env, lits)
+    return {"+": a + b, "-": a - b, "*": a * b, "/": a / b}[t[0]]
+
+
+def _c16_subst(s, lits):
+    import re
+
+    def sub(m):
+        v = lits.get(str(int(m.group(0)) - 100))
+        if v is None:
+            return m.group(0)
+        v = float(v)
+        return repr(v) if v >= 0 else f"(0 - {repr(-v)})"
+
+    return re.sub(r"\b1[0-9][0-9]\b", sub, s)
+
+
+@replay("c16_spec")
+def _(p):
+    from formulaic.errors import FormulaSyntaxError
+    from formulaic.utils.constraints import LinearConstraints
+
+    lits, x, names = p["lits"], p["x"], p["names"]
+    spec = p["spec"]
+    if p["form"] == "dict":
+        spec = {_c16_subst(k, lits): float(lits[str(int(v) - 100)]) for k, v in spec.items()}
+    elif isinstance(spec, list):
+        spec = [_c16_subst(s, lits) for s in spec]
+    else:
+        spec = _c16_subst(spec, lits)
+    try:
+        lc = LinearConstraints.from_spec(spec, variable_names=names)
+    except (RuntimeError, FormulaSyntaxError):
+        return None
+    except ZeroDivisionError:
+        return None
+    except Exception as e:
+        return f"escaping-{type(e).__name__}: LinearConstraints.from_spec({spec!r}) raised {type(e).__name__}: {e}"
+    A, b = numpy.asarray(lc.constraint_matrix, dtype=float), numpy.asarray(lc.constraint_values, dtype=float)
+    parts = p["parts"]
+    if A.shape != (len(parts), len(names)):
+        return f"wrong-shape: {A.shape} for {len(parts)} constraints"
+    xv = numpy.array([x[n] for n in names])
+    for i, part in enumerate(parts):
+        try:
+            want = _c16_float_eval(part[1], x, lits)
+            if part[0] == "eq":
+                want -= _c16_float_eval(part[2], x, lits)
+        except ZeroDivisionError:
+            return None
+        got = float(A[i] @ xv - b[i])
+        if not _close(got, want, 1e-7):
+            return f"wrong-affine-map: {spec!r} row {i}: A.x-b = {got} but lhs-rhs = {want} at x={x}"
+    return None
+
+
 # ------------------------------------------------------------------------------------------------ CLI
 
 if __name__ == "__main__":
